@@ -3,11 +3,13 @@ from props_common import COMMON_TRUSTED
 CONFIG = {
     "areas": ["fedreq"],
     "lean": ["VProps.C13"],
-    "sources": ["VProps/C13.lean", "VProofs/FedReq.lean", "VModel/FedReq.lean", "VProofs/JsonUtf8.lean", "VProps/C01.lean"],
+    "sources": ["VProps/C13.lean", "VProofs/FedReq.lean", "VProofs/FedReqStrict.lean", "VModel/FedReq.lean", "VProofs/JsonUtf8.lean", "VProps/C01.lean"],
     "theorems": [
         "V.C13.gen_fields", "V.C13.gen_header_format", "V.C13.gen_safe_ranges",
         "V.C13.header_roundtrip", "V.C13.accepted_facts", "V.C13.refused_if", "V.C13.refused_if_key_invalid",
         "V.C13.binding", "V.C13.signed_request_accepted", "V.C13.canonical_body_facts", "V.C13.signed_request_accepted_canon",
+        "V.C13.signed_body_strict", "V.C13.signed_request_accepted_gated", "V.C13.ambiguous_body_refused", "V.C13.sign_refuses",
+        "V.C13.refused_if_not_utf8", "V.C13.accepted_fields_utf8", "V.FedReq.canonical_strict",
     ],
     "rule": "verify: NewFederationRequest -> SetContent -> Sign (real ed25519, 4 keys) -> HTTPRequest -> VerifyHTTPRequest in-process against a "
             "real KeyRing over a key-table database: methods (12 + 6 odd) x origins / destinations (13 valid incl. ports, IPv6 literals; 18 odd) x "
@@ -16,7 +18,13 @@ CONFIG = {
             "(equivalent spelling, other value, malformed, invalid UTF-8, removed, added), header syntax (44 spellings: ordering, blanks, quoting, "
             "missing / empty / repeated parameters, other schemes, case), header values (other origin / destination / key), several Authorization "
             "headers, receiver names (default, local-name lists, nil), time of receipt vs valid_until_ts / expired_ts / 7-day clamp, key database "
-            "(wrong key, other server, missing, failing), key known under another ID; "
+            "(wrong key, other server, missing, failing), key known under another ID; round 3: URIs whose query holds U+FFFD, transmitted with "
+            "the U+FFFD bytes rewritten to bytes json.Marshal reads as U+FFFD (\\xff, \\xc0, a surrogate's UTF-8), methods / X-Matrix origins / "
+            "destinations with invalid UTF-8, sender-side URIs that are not valid UTF-8, and bodies its readers disagree on (a lone surrogate "
+            "escape or a duplicate member written into the signed body, first or last, top level or nested, also with the name respelled; "
+            "invalid UTF-8) both as transmitted body under the old signature and as content handed to SetContent + Sign; the specification "
+            "judges method / URI / origin / destination on the BYTES (any difference from what was signed => refused) and the body by the value "
+            "every reader sees; "
             "parseauth: the 44 header spellings x 6 value sets (blanks, quotes, '=', commas, Unicode white space, non-ASCII) plus 1-3 character "
             "mutations, against the model's parseAuthorization; thorough adds every sequence of up to 5 tokens (origin key sig = \" , blank a tab) "
             "after the scheme (66 430 headers). Non-trivial: every verify op; distinct by op line.",
@@ -25,21 +33,23 @@ CONFIG = {
         "net/http (http.NewRequest, Request.Method / URL / Header / Body as the receiver sees them), net/url (Parse, RequestURI), "
         "mime.ParseMediaType are parameters of the model (their results are computed by the harness with the std-lib and sent along)",
         "encoding/json of the fields struct (string escaping, RawJSON compaction) and CanonicalJSON are modelled by VModel.Json "
-        "(parse / encodeCanon / canonical, C01); contents with duplicate keys or lone surrogates are outside that model (skipped, counted)",
+        "(parse / encodeCanon / canonical, C01); contents with duplicate keys or lone surrogate escapes are refused by the gate of SignJSON / "
+        "VerifyJSON (model: contentStrict in `sign` and in the key ring's check `gatedCheck`) — no longer skipped",
         "crypto/ed25519 and base64: abstract `sigOK`; in the driver '$SIG' is accepted exactly for the signing key and a payload with the "
         "same canonical JSON as the signed object (the toy instance of IdealSig)",
     ],
     "assumptions": [
         "IdealSig (correctness; every signature that checks is an honest signature over an object equal up to member order) is a hypothesis "
         "of binding and signed_request_accepted, never an axiom; satisfiability shown by a toy scheme",
-        "signed_request_accepted no longer assumes C01's facts about canonical JSON: canonical_body_facts derives them (the body Sign "
+        "signed_request_accepted does not assume C01's facts about canonical JSON: canonical_body_facts derives them (the body Sign "
         "stores is encodeCanon of the parsed body, valid UTF-8, re-parses to that value with members sorted and -0 as 0, same canonical "
         "bytes) from V.C01.canonical_eq_spec_general / parse_encodeCanon / encodeCanon_sorted and VProofs.JsonUtf8.canonical_utf8. "
-        "Residue, explicit and shown satisfiable (BodyOk): the body is valid UTF-8 (otherwise the request is refused, refused_if (6)), "
-        "has no lone surrogate escape (CompactJSON drops it, the model's value reads U+FFFD: outside the model, skipped in the driver) and "
-        "no duplicate key (canonical order of equal keys unspecified, outside C01). Under IdealSig (correctness only up to member order) "
-        "one more: no number of the body is the literal -0 (canonical JSON writes 0); signed_request_accepted_canon removes it under "
-        "CanonCorrect (a signature checks against every object with the same canonical bytes: what ed25519 over CanonicalJSON does)",
+        "Residue (BodyOk): the body is valid UTF-8 (otherwise the request is refused, refused_if (6)). 'No lone surrogate escape, no "
+        "duplicate key' is no longer a hypothesis: Sign refuses such a body (sign_refuses, signed_body_strict) and the receiving key ring "
+        "refuses it (ambiguous_body_refused); what Sign stores passes the receiver's gate (canonical_strict, signed_request_accepted_gated). "
+        "Under IdealSig (correctness only up to member order) one more restriction: no number of the body is the literal -0 (canonical JSON "
+        "writes 0); signed_request_accepted_canon / _gated remove it under CanonCorrect (a signature checks against every object with the "
+        "same canonical bytes: what ed25519 over CanonicalJSON does)",
         "'malformed X-Matrix header' is read as the code reads it: no non-empty origin, key and sig can be extracted (400), or no X-Matrix "
         "header at all (401). Syntactic leniency of ParseAuthorization (unbalanced or doubled quotes, blanks and tabs around names and "
         "values, parameters without '=', repeated parameters where the last wins, unknown parameters) is accepted by the code when the "
@@ -51,7 +61,10 @@ CONFIG = {
         "request is then refused, 401); both are outside the quantifier (spec stream: unspecified:key-id-outside-grammar)",
         "an empty method is turned into GET by http.NewRequest while the signed object says \"\": such a request is built but refused (401); "
         "spec stream: unspecified (a method is a non-empty token)",
-        "fields that are not valid UTF-8 (json.Marshal would replace bytes by U+FFFD) are outside the model: outcome skip",
+        "a method / request URI / origin / destination that is not valid UTF-8 is REFUSED (Sign: error; readHTTPRequest: 400) since the K5 "
+        "repair — refused_if_not_utf8, accepted_fields_utf8, sign_refuses; before it json.Marshal wrote U+FFFD on both sides and the bytes "
+        "were not bound. Residue outside the model (outcome skip): a key ID or a signature TEXT in an X-Matrix header, or the receiver's own "
+        "default server name, that is not valid UTF-8 (none of them is a signed field of the transmitted request)",
         "StrictValiditySignatureCheck reads the wall clock (valid_until_ts is clamped to now + 7 days): harness timestamps avoid the window "
         "2025-2039 so that the driver's fixed wall clock (2e12 ms) is equivalent to the real one",
         "in-process: the *http.Request built by HTTPRequest is handed to VerifyHTTPRequest directly (Body set to http.NoBody when nil, as a "
